@@ -557,6 +557,67 @@ func checkMirrorHelpers(prog *core.Program, r3 *core.RuleRun) {
 	} else {
 		r3.Undecided("mirror.UDP.SetLen", token.NoPos, "method not found")
 	}
+	// the per-datagram setters rewrite their field on every call: the mirror loops build the headers once and rely on
+	// the setters to refresh length and addresses for each datagram, so a setter that returns early (a range guard, a
+	// "nothing to do" shortcut) leaves the previous datagram's value in the header
+	for _, mn := range [][2]string{{"IPv4", "SetLen"}, {"IPv4", "SetAddrs"}, {"UDP", "SetLen"}} {
+		fn := prog.Method("mirror", mn[0], mn[1])
+		if fn == nil {
+			continue
+		}
+		var buf *ssa.Parameter
+		for _, q := range fn.Params {
+			if isByteSlice(q.Type()) {
+				buf = q
+				break
+			}
+		}
+		if buf == nil {
+			continue
+		}
+		intoBuf := func(v ssa.Value) bool {
+			for i := 0; i < 6 && v != nil; i++ {
+				switch x := v.(type) {
+				case *ssa.Parameter:
+					return x == buf
+				case *ssa.IndexAddr:
+					v = x.X
+				case *ssa.Slice:
+					v = x.X
+				default:
+					return false
+				}
+			}
+			return false
+		}
+		var writes []ssa.Instruction
+		allInstrs(fn, func(ins ssa.Instruction) {
+			switch x := ins.(type) {
+			case *ssa.Store:
+				if intoBuf(x.Addr) {
+					writes = append(writes, ins)
+				}
+			case *ssa.Call:
+				if b, isB := x.Common().Value.(*ssa.Builtin); isB && b.Name() == "copy" && intoBuf(x.Common().Args[0]) {
+					writes = append(writes, ins)
+				} else if i, isW := elemWriters[calleeName(x)]; isW && i < len(x.Common().Args) && intoBuf(x.Common().Args[i]) {
+					writes = append(writes, ins)
+				}
+			}
+		})
+		always := len(writes) > 0
+		for _, w := range writes {
+			wk := core.Walk{Blocked: func(i ssa.Instruction) bool { return i == w }}
+			for i := range wk.ReachFromEntry(fn) {
+				if _, isRet := i.(*ssa.Return); isRet {
+					always = false
+				}
+			}
+		}
+		key := "mirror." + mn[0] + "." + mn[1] + ":always-writes"
+		r3.Check(always, key, fn.Pos(), fmt.Sprintf("%d header write(s), each on every path through the setter", len(writes)),
+			"the setter can return without rewriting its header field: the header keeps the previous datagram's length/addresses, so the mirrored packet's lengths disagree with its payload")
+	}
 	if fn := prog.Method("mirror", "UDP", "Marshal"); fn != nil {
 		ps := scan(fn)
 		want := map[int64]string{0: "SrcPort", 2: "DstPort", 4: "Length", 6: "Checksum"}
